@@ -103,6 +103,41 @@ func validatedAt(v ssa.Value, pt point, seen map[ssa.Value]bool) (bool, string) 
 			return false, "the result of imports.Process is used on a path where its error was not checked to be nil"
 		}
 	}
+	// result of a module helper that itself only returns validated bytes (e.g. an extracted "render" step)
+	if ex, ok := v.(*ssa.Extract); ok && ex.Index == 0 {
+		if call, ok := ex.Tuple.(*ssa.Call); ok {
+			if g := an.StaticCallee(call); g != nil && an.InModule(g) && g.Blocks != nil && !seen[call] {
+				seen[call] = true
+				res := g.Signature.Results()
+				if res.Len() == 2 && an.ShortType(res.At(0).Type()) == "[]byte" && an.IsErrorType(res.At(1).Type()) {
+					edges := errNilEdges(call)
+					if len(edges) == 0 || reachedWithout(call, pt, edges) {
+						return false, "the bytes returned by " + short(g) + " are used on a path where its error was not checked to be nil"
+					}
+					for _, ret := range an.Returns(g) {
+						if an.IsNilConst(ret.Results[0]) {
+							continue // failure return
+						}
+						// `return imports.Process(...)`: bytes and error of the same validating call
+						if e0, ok := ret.Results[0].(*ssa.Extract); ok {
+							if e1, ok := ret.Results[1].(*ssa.Extract); ok && e0.Tuple == e1.Tuple {
+								if c, ok := e0.Tuple.(*ssa.Call); ok && an.IsCallTo(c, importsProcess) {
+									continue
+								}
+							}
+						}
+						if !an.IsNilConst(ret.Results[1]) {
+							return false, short(g) + " returns bytes together with a possibly non-nil error"
+						}
+						if ok, why := validatedAt(ret.Results[0], point{nil, ret.Block()}, seen); !ok {
+							return false, "inside " + short(g) + ": " + why
+						}
+					}
+					return true, ""
+				}
+			}
+		}
+	}
 	// src of a parser.ParseFile
 	for _, c := range an.CallsTo(f, parserParse) {
 		call := c.(*ssa.Call)
@@ -265,6 +300,38 @@ func c07API(r *an.Run) {
 			continue
 		}
 		n++
+		// `return f.render(...)`: bytes and error of one module call are returned together
+		if e0, ok := ret.Results[0].(*ssa.Extract); ok {
+			if e1, ok := ret.Results[1].(*ssa.Extract); ok && e0.Tuple == e1.Tuple {
+				if call, ok := e0.Tuple.(*ssa.Call); ok {
+					if g := an.StaticCallee(call); g != nil && an.InModule(g) {
+						okAll := true
+						why := ""
+						for _, gr := range an.Returns(g) {
+							if an.IsNilConst(gr.Results[0]) {
+								continue
+							}
+							if x0, ok := gr.Results[0].(*ssa.Extract); ok {
+								if x1, ok := gr.Results[1].(*ssa.Extract); ok && x0.Tuple == x1.Tuple {
+									if c, ok := x0.Tuple.(*ssa.Call); ok && an.IsCallTo(c, importsProcess) {
+										continue
+									}
+								}
+							}
+							if !an.IsNilConst(gr.Results[1]) {
+								okAll, why = false, short(g)+" returns bytes together with a possibly non-nil error"
+								continue
+							}
+							if ok2, w := validatedAt(gr.Results[0], point{nil, gr.Block()}, map[ssa.Value]bool{}); !ok2 {
+								okAll, why = false, w
+							}
+						}
+						r.Check(okAll, short(f)+"|returned-bytes", ret.Pos(), "bytes returned by File.Apply (through %s) were parsed successfully on every path %s", short(g), why)
+						continue
+					}
+				}
+			}
+		}
 		key := short(f) + "|returned-bytes"
 		if ret.Results[0] == ssa.Value(src) {
 			// the input itself; it was parsed at the top of Apply
@@ -279,11 +346,15 @@ func c07API(r *an.Run) {
 	r.Min("API success returns", 2)
 	// error edges return a nil result
 	r.Rule("R2-invalid-output-is-reported-not-emitted")
-	for _, c := range an.CallsTo(f, formatNode, importsProcess) {
+	var apiCalls []ssa.CallInstruction
+	for _, g := range helperGroup(f, 2) {
+		apiCalls = append(apiCalls, an.CallsTo(g, formatNode, importsProcess)...)
+	}
+	for _, c := range apiCalls {
 		call := c.(*ssa.Call)
 		ev := errValue(call)
-		good := false
-		for _, cse := range an.EqCases(f, func(v ssa.Value) bool { return v == ev }) {
+		good := returnsTupleOf(call)
+		for _, cse := range an.EqCases(call.Parent(), func(v ssa.Value) bool { return v == ev }) {
 			if !an.IsNilConst(cse.Key) {
 				continue
 			}
